@@ -2,6 +2,8 @@
 
 package dependency
 
+import "pault.ag/go/debian/version"
+
 // Harness code for the solver-based checks (injected by overlay; never part of /repo).
 
 func eqArchP(a, b *Arch) bool {
@@ -251,9 +253,172 @@ func VerifC04Reject(s string) int {
 	return 0
 }
 
+// ---------------------------------------------------------------- C06
+
+func specIsAll(a Arch) bool { return a.ABI == "all" && a.OS == "all" && a.CPU == "all" }
+
+func specIsWild(a Arch) bool { return a.ABI == "any" || a.OS == "any" || a.CPU == "any" }
+
+// specMatch: concrete c matches pattern p iff every component of p is "any" or equals c's.
+func specMatch(c, p Arch) bool {
+	return (p.ABI == "any" || p.ABI == c.ABI) && (p.OS == "any" || p.OS == c.OS) && (p.CPU == "any" || p.CPU == c.CPU)
+}
+
+// specIs: the statement's matching relation for two architectures of which at least one is concrete
+// (or the atomic "all"); ok=false when the statement says nothing (wildcard against wildcard).
+func specIs(a, b Arch) (result bool, ok bool) {
+	if specIsAll(a) || specIsAll(b) {
+		return specIsAll(a) && specIsAll(b), true
+	}
+	if !specIsWild(a) {
+		return specMatch(a, b), true
+	}
+	if !specIsWild(b) {
+		return specMatch(b, a), true
+	}
+	return false, false
+}
+
+// VerifC06Is: Arch.Is agrees with the statement and is symmetric.
+func VerifC06Is(aA, aO, aC, bA, bO, bC string) int {
+	a := Arch{ABI: aA, OS: aO, CPU: aC}
+	b := Arch{ABI: bA, OS: bO, CPU: bC}
+	want, ok := specIs(a, b)
+	if !ok {
+		return 0
+	}
+	if a.Is(&b) != want {
+		return 1
+	}
+	if b.Is(&a) != want {
+		return 2
+	}
+	return 0
+}
+
+// VerifC06Set: a bracketed list of n entries admits `o` iff (some entry matches) != negated; empty admits all.
+func VerifC06Set(n int, not bool, e0A, e0O, e0C, e1A, e1O, e1C, e2A, e2O, e2C, oA, oO, oC string) int {
+	all := []Arch{{e0A, e0O, e0C}, {e1A, e1O, e1C}, {e2A, e2O, e2C}}
+	set := ArchSet{Not: not, Architectures: all[:n]}
+	o := Arch{oA, oO, oC}
+	some := false
+	for i := 0; i < n; i++ {
+		m, ok := specIs(all[i], o)
+		if !ok {
+			return 0
+		}
+		if m {
+			some = true
+		}
+	}
+	want := true
+	if n > 0 {
+		want = some != not
+	}
+	if set.Matches(&o) != want {
+		return 1
+	}
+	return 0
+}
+
+// VerifC06Select: 2 relations x 3 alternatives; alternative k is a substvar iff sv[k], otherwise it carries an
+// architecture list that is empty (emp[k]) or holds one entry ent[k] with negation flag not[k].
+func VerifC06Select(sv0, sv1, sv2, sv3, sv4, sv5, emp0, emp1, emp2, emp3, emp4, emp5, not0, not1, not2, not3, not4, not5 bool,
+	e0, e1, e2, e3, e4, e5, o string) int {
+	sv := []bool{sv0, sv1, sv2, sv3, sv4, sv5}
+	emp := []bool{emp0, emp1, emp2, emp3, emp4, emp5}
+	not := []bool{not0, not1, not2, not3, not4, not5}
+	ent := []string{e0, e1, e2, e3, e4, e5}
+	names := []string{"p0", "p1", "p2", "p3", "p4", "p5"}
+	arch := Arch{"gnu", "linux", o}
+	dep := &Dependency{}
+	wantSel := []string{}
+	wantAll := []string{}
+	wantSub := []string{}
+	for r := 0; r < 2; r++ {
+		rel := Relation{}
+		chosen := false
+		for k := 3 * r; k < 3*r+3; k++ {
+			if sv[k] {
+				rel.Possibilities = append(rel.Possibilities, Possibility{Name: names[k], Substvar: true})
+				wantSub = append(wantSub, names[k])
+				continue
+			}
+			set := &ArchSet{Not: not[k], Architectures: []Arch{}}
+			admits := true
+			if !emp[k] {
+				e := Arch{"gnu", "linux", ent[k]}
+				set.Architectures = append(set.Architectures, e)
+				admits = (e.CPU == arch.CPU) != not[k]
+			}
+			rel.Possibilities = append(rel.Possibilities, Possibility{Name: names[k], Architectures: set, StageSets: []StageSet{}})
+			wantAll = append(wantAll, names[k])
+			if admits && !chosen {
+				chosen = true
+				wantSel = append(wantSel, names[k])
+			}
+		}
+		dep.Relations = append(dep.Relations, rel)
+	}
+	check := func(got []Possibility, want []string, subst bool) bool {
+		if len(got) != len(want) {
+			return false
+		}
+		for i := range got {
+			if got[i].Name != want[i] || got[i].Substvar != subst {
+				return false
+			}
+		}
+		return true
+	}
+	if !check(dep.GetPossibilities(arch), wantSel, false) {
+		return 1
+	}
+	if !check(dep.GetAllPossibilities(), wantAll, false) {
+		return 2
+	}
+	if !check(dep.GetSubstvars(), wantSub, true) {
+		return 3
+	}
+	return 0
+}
+
+// VerifC06Sat: "(op N)" is satisfied by V exactly when sign(V cmp N) is in the operator's set;
+// never when N is unparsable or op is unknown.
+func VerifC06Sat(op, n string, ev uint, uv, rv string) int {
+	v := version.Version{Epoch: ev, Version: uv, Revision: rv}
+	rel := VersionRelation{Number: n, Operator: op}
+	got := rel.SatisfiedBy(v)
+	vn, err := version.Parse(n)
+	want := false
+	if err == nil {
+		q := version.VerifSpecCompare(v, vn)
+		switch op {
+		case "<<":
+			want = q < 0
+		case "<=":
+			want = q <= 0
+		case "=":
+			want = q == 0
+		case ">=":
+			want = q >= 0
+		case ">>":
+			want = q > 0
+		}
+	}
+	if got != want {
+		return 1
+	}
+	return 0
+}
+
 var verifFuncs = map[string]interface{}{
 	"VerifC05Dep":    VerifC05Dep,
 	"VerifC05Arch":   VerifC05Arch,
+	"VerifC06Is":     VerifC06Is,
+	"VerifC06Set":    VerifC06Set,
+	"VerifC06Select": VerifC06Select,
+	"VerifC06Sat":    VerifC06Sat,
 	"VerifC04Accept": VerifC04Accept,
 	"VerifC04Reject": VerifC04Reject,
 }
